@@ -85,6 +85,78 @@ pub fn ptrev_to(p: &Pt) -> Value {
 	Value::List(vec![p.y.to_value(), p.x.to_value()])
 }
 
+/// A newtype deriving `CompactAs`, used as a `#[codec(compact)]` field type.
+#[derive(Clone, Debug, Default, PartialEq, Eq, PartialOrd, Ord, Encode, Decode, parity_scale_codec::CompactAs, parity_scale_codec::DecodeWithMemTracking, parity_scale_codec::MaxEncodedLen)]
+pub struct CA(pub u32);
+
+pub fn ca_from(v: &Value) -> CA {
+	CA(u32::from_value(v))
+}
+pub fn ca_to(c: &CA) -> Value {
+	c.0.to_value()
+}
+
+pub fn add2(a: (usize, usize), c: (usize, usize)) -> (usize, usize) {
+	(a.0 + c.0, a.1 + c.1)
+}
+
+pub fn variant(v: &Value) -> (usize, &[Value]) {
+	match v {
+		Value::Variant(i, xs) => (*i, xs),
+		_ => panic!("expected a variant, got {:?}", v),
+	}
+}
+
+/// Types deriving `CompactAs`: the shape of `Compact<Self>`.
+pub trait CompactAsSubject: Subject {
+	fn compact_shape() -> Shape;
+}
+
+/// `Compact<T>` for a `CompactAs` type `T` (a local wrapper because of the orphan rule; it forwards
+/// every method).
+pub struct CompactOf<T>(pub parity_scale_codec::Compact<T>);
+
+impl<T> Encode for CompactOf<T>
+where
+	parity_scale_codec::Compact<T>: Encode,
+{
+	fn size_hint(&self) -> usize {
+		self.0.size_hint()
+	}
+	fn encode_to<W: Output + ?Sized>(&self, dest: &mut W) {
+		self.0.encode_to(dest)
+	}
+	fn encode(&self) -> Vec<u8> {
+		self.0.encode()
+	}
+	fn using_encoded<R, F: FnOnce(&[u8]) -> R>(&self, f: F) -> R {
+		self.0.using_encoded(f)
+	}
+}
+impl<T> Decode for CompactOf<T>
+where
+	parity_scale_codec::Compact<T>: Decode,
+{
+	fn decode<I: Input>(input: &mut I) -> Result<Self, Error> {
+		parity_scale_codec::Compact::<T>::decode(input).map(CompactOf)
+	}
+}
+impl<T> parity_scale_codec::DecodeWithMemTracking for CompactOf<T> where
+	parity_scale_codec::Compact<T>: parity_scale_codec::DecodeWithMemTracking
+{
+}
+impl<T: CompactAsSubject> Subject for CompactOf<T> {
+	fn shape() -> Shape {
+		T::compact_shape()
+	}
+	fn from_value(v: &Value) -> Self {
+		CompactOf(parity_scale_codec::Compact(T::from_value(v)))
+	}
+	fn to_value(&self) -> Value {
+		self.0 .0.to_value()
+	}
+}
+
 pub fn list(v: &Value) -> &[Value] {
 	match v {
 		Value::List(xs) => xs,
@@ -92,12 +164,27 @@ pub fn list(v: &Value) -> &[Value] {
 	}
 }
 
-pub fn registry() -> Vec<VT> {
-	let mut v = vec![VT::base::<Pt>("Pt", "derived", true).mel::<Pt>().mem::<Pt>()];
-	v.extend(gen::registry());
-	v
+impl Subject for CA {
+	fn shape() -> Shape {
+		Shape::Struct(vec![refmodel::Field { shape: Shape::UInt(32), skip: false }])
+	}
+	fn from_value(v: &Value) -> Self {
+		CA(u32::from_value(&list(v)[0]))
+	}
+	fn to_value(&self) -> Value {
+		Value::List(vec![self.0.to_value()])
+	}
+}
+impl CompactAsSubject for CA {
+	fn compact_shape() -> Shape {
+		Shape::Struct(vec![refmodel::Field { shape: Shape::Compact(32), skip: false }])
+	}
 }
 
-#[path = "derived_gen.rs"]
-mod gen;
-pub use gen::*;
+pub fn registry() -> Vec<VT> {
+	vec![
+		VT::base::<Pt>("Pt", "derived", true).mel::<Pt>().mem::<Pt>(),
+		VT::base::<CA>("CA", "derived", true).mel::<CA>().mem::<CA>(),
+		VT::base::<CompactOf<CA>>("Compact<CA>", "derived", true).mem::<CompactOf<CA>>(),
+	]
+}
